@@ -73,7 +73,7 @@ def judge(ctx, spec, sx, q, expected, bodies):
     except Exception as e:
         ctx.oracle_fail("the data response does not decode against its own declaration: %r" % (e,), case, repr(e), "XDR values", size=size)
         return "undecodable"
-    if [float(v) for v in vals] != [float(v) for v in want_vals]:
+    if [v if isinstance(v, str) else float(v) for v in vals] != [v if isinstance(v, str) else float(v) for v in want_vals]:
         ctx.oracle_fail("the data response carries other values than the constrained source", case, vals[:30], want_vals[:30], size=size)
         return "values-differ"
     # ASCII: every value, in order, with its index tuple
@@ -87,9 +87,9 @@ def judge(ctx, spec, sx, q, expected, bodies):
                         repr(e), "id line, one line per row-major index tuple, blank line", size=size)
         return "ascii-incomplete"
     printed = [c[2] for c in cells]
-    want_printed = [G.fmt6g(v) for v in vals]
+    want_printed = [G.printed(v) for v in vals]
     if printed != want_printed:
-        ctx.oracle_fail("the ASCII response does not print every value of the data response (to %.6g)", case,
+        ctx.oracle_fail("the ASCII response does not print every value of the data response (numbers to %.6g, strings quoted)", case,
                         printed[:30], want_printed[:30], size=size)
         return "ascii-values"
     return "ok"
@@ -186,7 +186,7 @@ def replay(payload):
         _, d3, arest = G.parse_dds(bodies["ascii"]["body"].decode("ascii"))
         vals = G.decode_dods_values(d2, payload_)
         cells = G.parse_ascii_data(d3, arest[46:])
-        ok = d1 == d2 == d3 and [c_[2] for c_ in cells] == [G.fmt6g(v) for v in vals]
+        ok = d1 == d2 == d3 and [c_[2] for c_ in cells] == [G.printed(v) for v in vals]
     except Exception as e:
         print("  fails:", e)
         return False
